@@ -46,6 +46,20 @@ pub fn solver_of(i: u8) -> vaporetto::SolverType {
     }
 }
 
+pub fn liblinear_solver_of(i: u8) -> liblinear::SolverType {
+    use liblinear::SolverType::*;
+    match i % 8 {
+        0 => L2R_LR,
+        1 => L2R_L2LOSS_SVC_DUAL,
+        2 => L2R_L2LOSS_SVC,
+        3 => L2R_L1LOSS_SVC_DUAL,
+        4 => MCSVM_CS,
+        5 => L1R_L2LOSS_SVC,
+        6 => L1R_LR,
+        _ => L2R_LR_DUAL,
+    }
+}
+
 /// Boundary features of boundary `i` (between characters i and i+1) with multiplicities.
 pub fn ref_boundary_features(cfg: &TrainCfg, chars: &[char], i: usize) -> BTreeMap<HookFeature, f64> {
     let n = chars.len();
@@ -81,7 +95,12 @@ pub fn ref_boundary_features(cfg: &TrainCfg, chars: &[char], i: usize) -> BTreeM
         }
     }
     // dictionary words touching the boundary
-    for word in &cfg.dict {
+    for (wi, word) in cfg.dict.iter().enumerate() {
+        // a dictionary is a set of words: a word listed twice (which Trainer::new refuses today)
+        // still has one occurrence per place where it occurs
+        if cfg.dict[..wi].contains(word) {
+            continue;
+        }
         let pat: Vec<char> = word.chars().collect();
         if pat.is_empty() || pat.len() > n {
             continue;
@@ -278,11 +297,22 @@ pub fn train_case(g: TrainGenCfg) -> impl Strategy<Value = TrainCase> {
                 let start = pick(st, s.chars.len());
                 let end = (start + len).min(s.chars.len());
                 let w: String = s.chars[start..end].iter().collect();
-                if !dict.contains(&w) {
+                // (now and then the same word twice: rejected by Trainer::new today; if a
+                // trainer accepts it, the model must still compute the learned function)
+                if !dict.contains(&w) || si % 16 == 3 {
                     dict.push(w);
                 }
             }
             let (mut charw, mut charn, mut typew, mut typen) = (cw, cn, tw, tn);
+            if !g.tame {
+                // now and then a window beyond the predictor's 7 padding slots / 8 fixed weights
+                if mode % 11 == 5 {
+                    charw = 8 + ((mode >> 5) % 3) as u8;
+                }
+                if mode % 13 == 7 {
+                    typew = 8 + ((mode >> 7) % 3) as u8;
+                }
+            }
             if g.tame {
                 charw = charw.clamp(1, 3);
                 typew = typew.clamp(1, 3);
